@@ -23,8 +23,9 @@ func runC04(c *Ctx) {
 	ruleNoWriteThroughView(c, "R04.f")
 }
 
-func ruleSingleWriteSite(c *Ctx) {
-	rid := "R04.a"
+func ruleSingleWriteSite(c *Ctx) { ruleSingleWriteSiteAs(c, "R04.a") }
+
+func ruleSingleWriteSiteAs(c *Ctx, rid string) {
 	c.rule(rid, "A3 who-may-write: call sites located in production packages of the repository that write to a client connection (Write/WriteString/ReadFrom on net.Conn, io.Writer, *tls.Conn, *redis.Conn; io.Copy*/io.WriteString/fmt.Fprint* onto such a value; writes into local buffers excluded) — exactly one may exist and it must be in the response writer that the connection loop calls")
 	respWriters := map[*ssa.Function]bool{}
 	writersAll := c.P.connWriters()
